@@ -12,6 +12,7 @@ package pseudonymization
 //@   ensures len(ccTLDs) == 6 && len(allTLDs) == 11
 //@   ensures forall(i, 0, len(ccTLDs), len(ccTLDs[i]) == 3)
 //@   ensures forall(i, 0, len(allTLDs), 3 <= len(allTLDs[i]) && len(allTLDs[i]) <= 5)
+//@   ensures tlds-start-with-a-dot: forall(i, 0, len(allTLDs), allTLDs[i][0] == '.') && forall(i, 0, len(ccTLDs), ccTLDs[i][0] == '.')
 
 //@ func randomString(buf []byte) (err error)
 //@   props C10 C14
@@ -25,7 +26,7 @@ package pseudonymization
 //@   props C10 C14
 //@   safety
 //@   ensures err == nil
-//@   ensures shape: 8 <= len(buf) ==> exists(k, 0, len(buf), buf[k] == '@')
+//@   ensures shape: 6 <= len(buf) ==> exists(t, 3, 6, buf[len(buf)-t] == '.' && exists(k, 1, len(buf)-t-1, buf[k] == '@'))
 //@   modifies buf
 
 //@ func randomRead(buf []byte) (err error)
